@@ -1,17 +1,23 @@
 #!/bin/sh
 # Build the framework from files on disk only (offline): translators -> Lean model, theorems, model driver -> Rust harness.
-set -e
+#
+# Every step that depends on the CONTENT of /repo (translators, harness builds, theorem modules over regenerated tables)
+# is only a cache warm-up here: each `./check <id>` re-runs the translators, rebuilds the harness against /repo's working
+# tree and rebuilds its own Props modules, and reports whatever no longer parses / builds as a broken obligation of the
+# property that owns it.  So such a step failing must not stop the setup (it is reported loudly instead); only a broken
+# toolchain (the model driver itself not building) is fatal.
 cd "$(dirname "$0")"
 export CARGO_NET_OFFLINE=true
-python3 tools/t1_scratch.py
-python3 tools/t6_twiddles.py
-[ -f tools/t4_scan.py ] && python3 tools/t4_scan.py || true
-[ -f tools/t5_surface.py ] && python3 tools/t5_surface.py || true
-(cd harness && cargo build --release --offline)
-python3 tools/t2_bflyops.py
-# the theorem modules are pre-built here only to warm the cache: every check rebuilds its own Props modules and reports a
-# module that no longer builds as a broken obligation of that property, so a failing theorem must not stop the setup
-(cd lean && lake build rfvmodel && (lake build RFV RFV.AllProps || echo "setup: some theorem modules do not build (reported by the checks that own them)"))
-(cd harness && cargo build --release --offline && cargo build --release --offline --no-default-features --target-dir /verif/.build/cargo-none && cargo build --release --offline --no-default-features --features avx,sse --target-dir /verif/.build/cargo-nodebug --config profile.release.debug-assertions=false --config profile.release.overflow-checks=false)
-(cd witness && cargo build --offline)
+warn() { echo "setup: WARNING: $1 (will be reported by the checks that depend on it)"; }
+python3 tools/t1_scratch.py || warn "translator T1 failed"
+python3 tools/t6_twiddles.py || warn "translator T6 failed"
+python3 tools/t4_scan.py || warn "translator T4 failed"
+python3 tools/t5_surface.py || warn "translator T5 failed"
+(cd harness && cargo build --release --offline) || warn "harness does not build against /repo"
+python3 tools/t2_bflyops.py || warn "translator T2 failed"
+(cd lean && lake build rfvmodel) || { echo "setup: the model driver does not build"; exit 1; }
+(cd lean && lake build RFV RFV.AllProps) || warn "some theorem modules do not build"
+(cd harness && cargo build --release --offline --no-default-features --target-dir /verif/.build/cargo-none) || warn "harness (no cargo features) does not build"
+(cd harness && cargo build --release --offline --no-default-features --features avx,sse --target-dir /verif/.build/cargo-nodebug --config profile.release.debug-assertions=false --config profile.release.overflow-checks=false) || warn "harness (release profile) does not build"
+(cd witness && cargo build --offline) || warn "witness crate does not compile against /repo"
 echo "setup ok"
